@@ -144,7 +144,7 @@ fn parse_case_at(c: &GiantCase, giant: usize) -> (ParseCase, usize) {
             poison: None,
         },
         only_k: None,
-        fault_kind: (c.seed % 14) as u8,
+        fault_kind: (c.seed % crate::source::FAULT_SELECTORS as u64) as u8,
     };
     (pc, at)
 }
